@@ -200,6 +200,21 @@ add(
     "DESIGN.md 6/C11",
 )
 
+add(
+    "C06",
+    "exploration",
+    "Generated configuration spaces (all domain constructors, constants, single-value domains), points_to_evaluate lists and "
+    "histories with results / failures / pending trials for FIFO random, grid and GP searchers, Hyperband with random and GP "
+    "multi-fidelity searchers, synchronous Hyperband, DEHB, PBT and regularised evolution; finite spaces are driven to exhaustion. "
+    "Oracle: harness membership / type predicate for every suggestion, harness re-implementation of the mid-point imputation for "
+    "the initial list, match-string uniqueness for no-repeat searchers, None only at exhaustion, grid == itertools.product once. "
+    "3e4 model-free + 640 GP histories quick, 5e5 + 1e4 thorough.",
+    "Exact ties of the nearest-value rule end the initial-order comparison; continuous domains narrower than the 7-digit match string are "
+    "not generated; one listed known finding (bounded random retries) is excluded and counted.",
+    "property-based testing (Hypothesis choice tape, stateful protocol driver): validity predicates + reference imputation model",
+    "DESIGN.md 6/C06",
+)
+
 NOT_YET = {}
 
 ALL = [f"C{i:02d}" for i in range(1, 21)]
